@@ -28,3 +28,40 @@ def fe_kwargs(fk, boundary=None, pad=None):
     if pad is not None:
         d['pad'] = pad
     return d or None
+
+# ---------------------------------------------------------------- history / aliasing guard used by several property modules
+import pickle as _pickle
+import pandas as _pd
+
+class HistoryDependence(AssertionError):
+    pass
+
+def _snap(o):
+    return o.copy(deep=True) if isinstance(o, _pd.DataFrame) else _pickle.dumps(o, protocol=4)
+
+def _unchanged(o, s):
+    if isinstance(o, _pd.DataFrame):
+        return list(o.columns) == list(s.columns) and list(o.index) == list(s.index) and o.equals(s)
+    return _pickle.dumps(o, protocol=4) == s
+
+def same_result(a, b):
+    if isinstance(a, _pd.DataFrame):
+        return isinstance(b, _pd.DataFrame) and list(a.columns) == list(b.columns) and a.equals(b)
+    if isinstance(a, (list, tuple)):
+        return isinstance(b, (list, tuple)) and len(a) == len(b) and all(same_result(x, y) for x, y in zip(a, b))
+    if isinstance(a, np.ndarray):
+        return isinstance(b, np.ndarray) and a.shape == b.shape and bool(np.array_equal(a, b, equal_nan=(a.dtype.kind == 'f')))
+    return a == b
+
+def twice(f, shared, what='call'):
+    """call f() twice with the SAME argument objects `shared` (list); they must be left as they were and the
+    second result must equal the first (a session / an object re-using its settings). Returns the first result."""
+    snaps = [_snap(o) for o in shared]
+    r1 = f()
+    for o, s in zip(shared, snaps):
+        if not _unchanged(o, s):
+            raise HistoryDependence('%s modified an argument object of type %s' % (what, type(o).__name__))
+    r2 = f()
+    if not same_result(r1, r2):
+        raise HistoryDependence('%s repeated with the same argument objects returns a different result' % what)
+    return r1
